@@ -219,3 +219,32 @@ Proof. simpl. repeat split; repeat constructor. Qed.
 Example C06_gradient_oracle_guard_satisfiable : forall n : nat,
   forall (b : list R) th, length th = n -> length ((fun (g : list R) (th : list R) => map (fun x => 2 * x) th) b th) = n.
 Proof. intros n b th H. simpl. rewrite map_length. exact H. Qed.
+
+(* ---------------------------------------------------------------------------------------------
+   Link to C12 (QModel.Protocol, the event machine of fit; proof: QTheory.Links, module L5).
+   The counting machine above and the protocol machine are two models of the same loop.  For a run in
+   which nobody asks to stop, with [length eps] = len(range(start, epochs+1)) epochs of [nb] batches
+   each, with or without a scheduler: the protocol machine's OptStep / SchedStep events
+   ([opt_sched_events], the projection OptStep -> EvOpt, SchedStep -> EvSched, callbacks dropped) ARE the
+   counting machine's trace; the final parameter version of the protocol machine is the optimizer-step
+   counter; scheduler steps are counted alike. *)
+From Coq Require Import ZArith.
+From QModel Require Import Protocol.
+From QTheory Require Links.
+Import Links.L5.
+
+Theorem C06_protocol_matches_cd_machine :
+  forall (T : Type) (O : NumOps T) (B : Type) (G : B -> list T -> list T)
+         (inj : injector) (lr_of : nat -> T) (has_sched : bool) (start epochs : Z) (nb ver0 : nat)
+         (theta : list T) (nsched : nat) (eps : list (list B)),
+  (forall h, inj h = false) ->
+  length eps = num_epochs start epochs -> Forall (fun bs => length bs = nb) eps ->
+  let s := fit inj has_sched start epochs nb false ver0 in
+  let r := run_epochs O G lr_of has_sched theta ver0 nsched eps in
+  r_trace r = opt_sched_events (trace s) /\
+  r_nopt r = ver s /\
+  r_nsched r = (nsched + count is_sched (trace s))%nat /\
+  count_ev EvOpt (r_trace r) = count is_opt (trace s) /\
+  count_ev EvSched (r_trace r) = count is_sched (trace s).
+Proof. exact @Links.L5.protocol_matches_cd_machine. Qed.
+Print Assumptions C06_protocol_matches_cd_machine.
